@@ -37,6 +37,21 @@ def matrix_shards(prop, run: Run, judges, *, sample, cap, maxlen=4, flt=None, ex
     return out
 
 
+def scale_shards(prop, run: Run, judges, *, extra=None, n=16, modes=("I", "GI", "O", "GO")):
+    """The scale family (same shapes at growing size), all of it on both tiers."""
+    idx = list(range(G.scale_size()))
+    random.Random(seed_int(prop, run.seed, "scale")).shuffle(idx)
+    out = []
+    for j in range(n):
+        d = {
+            "prop": prop, "judges": judges, "modes": list(modes), "source": "scale", "indices": idx[j::n], "seed": seed_int(prop, run.seed, "sc", j),
+            "cap": 30, "maxlen": 2, "sample_at": 10**9,
+        }
+        d.update(extra or {})
+        out.append(d)
+    return out
+
+
 def execute(run: Run, shards, timeout=None):
     run_workers("pv.engine", "worker", shards, timeout_s=timeout or run.pick(900, 7200), acc=run.acc)
 
